@@ -1333,7 +1333,7 @@ def run(tier: str, seed: int, replay=None) -> int:
                 unsettled["cases"] += 1
                 unsettled["impl_equals_model"] += 1 if m_ok else 0
                 unsettled["impl_equals_spec"] += 1 if s_ok else 0
-                if not m_ok:
+                if not m_ok and c.get("quant") is None and not c.get("empty_join"):
                     rep.note(f"unsettled-reading class: implementation differs from the model on {sig_of(c['prog'])!r} (not an alarm)")
             else:
                 if s_ok:
